@@ -1,7 +1,7 @@
 (** * C15 -- reported propagation metrics equal the instrumentation actually emitted.
     Only statements, each closed by [exact] of a lemma proved elsewhere, with its assumptions. *)
 From Coq Require Import String List NArith Bool.
-From IastRw Require Import Ast Generated Config Model HookSites WfTree P_Telemetry P_Count P_CountGlobal.
+From IastRw Require Import Ast Generated Config Model HookSites WfTree P_Telemetry P_Count P_CountGlobal P_CountProgram.
 Import ListNotations.
 
 (** With verbosity off the count stays zero and no breakdown is accumulated. *)
@@ -78,3 +78,43 @@ Theorem C15_registered_names_are_temporaries : forall c fuel root n s n' s',
   op_visit c fuel root n s = Some (n', s') -> all_temp (o_p s) -> all_temp (o_p s').
 Proof. exact op_visit_temp. Qed.
 Print Assumptions C15_registered_names_are_temporaries.
+
+(** ** The whole file.  For every configuration whose verbosity is not OFF and every Script/Module tree of
+    the fragment (well-formed, no optional chaining, no mention of the hook namespace): if the rewriter
+    accepts the file, the reported count is exactly the number of references to the hook namespace in the
+    tree handed to the printer, minus those of the configured prologue (present iff the file is Modified).
+    Unbounded: induction over the block visitor, the operation visitor inside each block (previous theorem,
+    in two instances of one generic additive measure) and the injected declarations. *)
+Theorem C15_file_count_equals_references_emitted : forall c file k lo hi body interp ast t,
+  c_verbosity c <> VOff ->
+  (k = KScript \/ k = KModule) ->
+  wf_all (Node (K k lo hi) [Node Lst body; interp]) = true /\ ns_count (Node (K k lo hi) [Node Lst body; interp]) = 0 ->
+  rewrite c file (Node (K k lo hi) [Node Lst body; interp]) = OutOk ast t ->
+  N.of_nat (ns_count ast) =
+    (t_count t + (if status_eqb (t_status t) Modified then N.of_nat (ns_count_list (c_prefix_stmts c)) else 0))%N.
+Proof. exact rewrite_count. Qed.
+Print Assumptions C15_file_count_equals_references_emitted.
+
+(** Every nested block left alone by the operation visitor is still clean, well-formed input when the
+    block visitor reaches it ([bad]: the number of maximal nested blocks / expression-bodied arrows that are not). *)
+Theorem C15_nested_blocks_stay_clean : forall c, c_verbosity c <> VOff ->
+  forall fuel root n s n' s',
+    op_visit c fuel root n s = Some (n', s') ->
+    wf_all n = true /\ ns_count n = 0 -> t_status (o_t s) <> Cancelled ->
+    bad n' = 0 /\ t_status (o_t s') <> Cancelled.
+Proof. exact op_visit_bad. Qed.
+Print Assumptions C15_nested_blocks_stay_clean.
+
+(** Non-vacuity: [{ a + b; }] satisfies the hypotheses, is accepted and modified, with one reference counted. *)
+Example C15_file_example :
+  let cfg := {| c_prefix := "t"; c_methods := [{| m_src := gen_DD_PLUS_OPERATOR; m_dst := "plusOperator"; m_operator := true; m_awc := false |}];
+                c_lit_callers := []; c_verbosity := VInformation; c_literals := true;
+                c_chain := false; c_comments := false; c_prefix_stmts := [] |} in
+  let prog := mk KScript (1, 12)%N
+                [nL [mk_block (1, 11)%N [mk KExprStmt (3, 9)%N [mk_bin (3, 8)%N "+" (mk_ident (3, 4)%N "a") (mk_ident (7, 8)%N "b")]]]; nNul] in
+  wf_all prog = true /\ ns_count prog = 0 /\
+  match rewrite cfg "f.js" prog with
+  | OutOk ast t => t_status t = Modified /\ t_count t = 1%N /\ ns_count ast = 1
+  | _ => False
+  end.
+Proof. vm_compute. repeat split; reflexivity. Qed.
